@@ -139,6 +139,15 @@ CallsComplete(cfg, obs) ==
          /\ Len(obs.calls) = n + (IF cfg.forked THEN cfg.par ELSE 0)
          /\ IF Parallel(cfg) THEN BagEq(FirstN(CallXs(obs), n), obs.sent[1]) ELSE FirstN(CallXs(obs), n) = obs.sent[1]
     ELSE IF Parallel(cfg) THEN BagEq(CallXs(obs), CalledL(cfg, obs.sent[1])) ELSE CallXs(obs) = CalledL(cfg, obs.sent[1])
+\* a stage that has to process its whole input (no Take / TakeWhile, no failure under Lift) does not close its outputs while
+\* its input is still open ("... and then closes its outputs", "both channels close when the input ends"), unless cancelled
+WholeInput(cfg, obs) == /\ cfg.kind \in {"Map", "FMap", "Filter", "Partition", "ForEach", "Void", "Fold", "Throttling", "ToSeq"}
+                        /\ ~(cfg.mode = "lift" /\ \E j \in 1..Len(obs.calls) : obs.calls[j].x \in cfg.fail)
+NoEarlyClose(cfg, obs) == (WholeInput(cfg, obs) /\ ~obs.cancelled /\ ~obs.closed[1]) => \A o \in obs.outs : ~obs.seen[o]
+\* ... nor does it sit idle while a sender is waiting on its input and every consumer is waiting on its outputs
+NoStall(cfg, obs) ==
+  (WholeInput(cfg, obs) /\ cfg.kind # "Throttling" /\ obs.quiet /\ ~obs.cancelled /\ obs.pending = 0 /\ obs.pend[1] # <<>>
+     /\ \A o \in obs.outs : obs.rp[o]) => FALSE
 NoPanic(cfg, obs) == ~obs.panic
 \* time a cancelled generator may need, after the environment's last move, before it notices
 \* (it sleeps between calls, may still serve a receiver that is waiting and may still fill its buffer)
@@ -283,6 +292,7 @@ ThrottlePaced(cfg, obs) ==
 Verdicts(cfg, obs) ==
   [Prefix |-> Prefix(cfg, obs), SeqExact |-> SeqExact(cfg, obs), FoldRes |-> FoldRes(cfg, obs), Complete |-> Complete(cfg, obs), TakeBound |-> TakeBound(cfg, obs),
    CallsPrefix |-> CallsPrefix(cfg, obs), CallsComplete |-> CallsComplete(cfg, obs), NoPanic |-> NoPanic(cfg, obs),
+   NoEarlyClose |-> NoEarlyClose(cfg, obs), NoStall |-> NoStall(cfg, obs),
    Settle1 |-> Settle1(cfg, obs), Settle2 |-> Settle2(cfg, obs), LiftCloses |-> LiftCloses(cfg, obs),
    PipePrefix |-> PipePrefix(cfg, obs), PipeComplete |-> PipeComplete(cfg, obs), PipeSettle |-> PipeSettle(cfg, obs), PipeGen |-> PipeGen(cfg, obs),
    NeverBlocksSender |-> NeverBlocksSender(cfg, obs), LosslessAfterCancel |-> LosslessAfterCancel(cfg, obs), NewSettle |-> NewSettle(cfg, obs),
